@@ -288,9 +288,29 @@ def run(ctx):
         insts = [(os.environ['VERIF_C06_INST'], int(a[0]), a[1] == '1', int(a[2]))]
     ctx.bounds['instances'] = [dict(zip(('name', 'waiters', 'second_status_writer', 'rounds'), i)) for i in insts]
     ctx.parallel(job, insts)
+    # the public wrappers around the waiter (sequential: the inner wait is the environment)
+    import lifecycle as lc
+    import C06_wrappers
+    import C06_wrappers_replay
+    C06_wrappers.check(ctx, lc.load()[0])
+    try:
+        bad, n = C06_wrappers_replay.battery()
+        ctx.translator_validated += n
+        if bad:
+            rec = {'name': 'wrappers.native_battery', 'group': 'C06.wrappers', 'solver_s': 0.0, 'status': 'cex'}
+            ctx.obligations.append(rec)
+            ctx.handle_cex(rec['name'], 'C06.wrappers.native', None, lambda _m: {'replayed': True, 'detail': 'real wait wrappers: %s' % bad[:3], 'replay': {'which': 'wrappers'}}, rec)
+    except RuntimeError as e:
+        ctx.inconclusive.append('wrappers native battery unavailable: %s' % str(e)[-300:])
 
 
 def replay_file(path):
     import json
     import C06_replay
-    return C06_replay.replay_from_json(json.load(open(path)))
+    d = json.load(open(path))
+    if (d.get('replay') or {}).get('which') == 'wrappers':
+        import C06_wrappers_replay
+        r = C06_wrappers_replay.replay()
+        print(r['detail'])
+        return 1 if r['replayed'] else 0
+    return C06_replay.replay_from_json(d)
